@@ -13,6 +13,7 @@ Bind(r) ==
     /\ lock' = r.st.lock
     /\ has' = [c \in C |-> r.st.has[Key(c)]]
     /\ ph' = [c \in C |-> r.st.ph[Key(c)]]
+    /\ req' = [c \in C |-> r.st.req[Key(c)]]
     /\ stopped' = [c \in C |-> r.st.stopped[Key(c)]]
     /\ told' = { [c |-> r.obs.told[i].c, msg |-> r.obs.told[i].msg] : i \in DOMAIN r.obs.told }
 
@@ -25,6 +26,7 @@ StepClauses(r) ==
     \cup FailClause("C13.GoneNeverGranted", GoneNeverGranted_Step)
     \cup FailClause("C13.GrantNext", GrantNext_Step)
     \cup FailClause("C13.OnlyHolderFrees", OnlyHolderFrees_Step)
+    \cup FailClause("C13.FreedOnlyByHolder", FreedOnlyByHolder_Step)
     \cup FailClause("C13.PollAnswered",
            \* a live waiting client is told the lock status at every poll (the blocking client relies on it)
            (r.ev \in {"Poll", "Request"} /\ (r.ev = "Request" \/ Waiting(r.args.c))) =>
@@ -38,7 +40,7 @@ StepClauses(r) ==
 ModelStep(r) ==
     CASE r.ev = "Request" -> Request(r.args.c)
       [] r.ev = "Poll" -> Poll(r.args.c)
-      [] r.ev = "Release" -> Release(r.args.c)
+      [] r.ev = "Release" -> Release(r.args.c) \/ ReleaseClose(r.args.c)
       [] r.ev = "Disconnect" -> Disconnect(r.args.c)
       [] OTHER -> TRUE
 
